@@ -2990,10 +2990,10 @@ class CV:
                 die(e, 'dictionary comprehension form')
             g = e.generators[0]
             it, ety = self.iterable(g.iter, env)
-            env2, pre = self.bind_target(g.target, 'it_', ety, env, e)
+            env2, pre = self.bind_target(g.target, 'itd_', ety, env, e)
             k = self.key(e.key, env2)
             v = self.num(self.expr(e.value, env2), T_Q, e)
-            return '(py_dict_of (map (fun it_ => %s(%s, %s)) %s))' % (pre, k, v, it), CV_DICT
+            return '(py_dict_of (map (fun itd_ => %s(%s, %s)) %s))' % (pre, k, v, it), CV_DICT
         if isinstance(e, ast.Call):
             return self.call(e, env)
         die(e, 'expression')
@@ -3403,6 +3403,8 @@ CONVERT_UNITS = [
                  params=[('votes', 'votes', CV_DICT)]),
             dict(name='VoteTotals_convert', cls='VoteTotals', fn='convert',
                  params=[('votes', 'votes', CV_NESTED)]),
+            dict(name='InvertedApprovalVotes_convert', cls='InvertedApprovalVotes', fn='convert', static=True,
+                 params=[('votes', 'votes', CV_APPROVAL)]),
         ]),
     ]),
 ]
